@@ -1148,6 +1148,14 @@ class Exec:
         cur = self.load(l, st)
         rhs = self.ev(n['inner'][1], st)
         comp = parse_type_str(n['computeResultType']['desugaredQualType'] if 'desugaredQualType' in n.get('computeResultType', {}) else n.get('computeResultType', {}).get('qualType', n['type'].get('qualType')))
+        # E1 op= E2 computes (T)E1 op E2 with T the type the usual arithmetic conversions give: the left operand is CONVERTED first
+        # (a negative int64 combined with a uint64 becomes a huge unsigned number -- it matters for / % >> and comparisons)
+        lt = n.get('computeLHSType') or {}
+        lhs_t = parse_type_str(lt.get('desugaredQualType') or lt.get('qualType')) if (lt.get('desugaredQualType') or lt.get('qualType')) else comp
+        if isinstance(cur, IntV) and lhs_t.kind == 'int' and cur.ct is not None and cur.ct.kind == 'int' and not (cur.ct.lo >= lhs_t.lo and cur.ct.hi <= lhs_t.hi):
+            cur = IntV(self.wrap(cur.t, lhs_t), lhs_t)
+        elif isinstance(cur, IntV) and lhs_t.kind == 'float':
+            cur = RealV(z3.ToReal(cur.t), lhs_t)
         r = self.binop(st, op, cur, rhs, comp)
         tgt = parse_type(n['type'])
         if isinstance(r, IntV) and tgt.kind == 'int' and not (comp.lo >= tgt.lo and comp.hi <= tgt.hi):
